@@ -159,7 +159,8 @@ func runC04(c *c04Case) (v *vcommon.Violation, nontrivial bool, inconclusive boo
 	}
 	ctx, cancel := context.WithTimeout(context.Background(), 60*time.Second)
 	defer cancel()
-	name := freshName("c04-")
+	// DMap names of all shapes are legal; these start with letters that also occur in the fragment prefix "dmap."
+	name := freshName([]string{"c04-", "d04-", "map-", ".p"}[len(c.Ops)%4])
 	keys := []string{"alpha", "b", "key-three"}[:c.Keys]
 	tokens := map[int][]byte{}
 	existing := map[int]bool{}
